@@ -1140,3 +1140,19 @@ pub fn cyclic_products(rng: &mut Rng) -> String {
     }
     b.out
 }
+
+/// A stage for a chain family (C13 growth): a short pointer-disciplined fragment over a few cells
+/// that ends `shift` cells to the right of where it began, so that n repetitions feed each
+/// other through the overlapping cells. Returns (stage, shift).
+pub fn chain_stage(rng: &mut Rng) -> (String, usize) {
+    let ncells = rng.range(2, 6);
+    let budget = rng.range(4, 24);
+    let mut b = Builder::new(rng, ncells, false, budget);
+    let n = b.rng.range(1, 3);
+    for _ in 0..n {
+        stmt(&mut b, 1, &mut Vec::new());
+    }
+    let shift = b.rng.range(0, ncells);
+    b.goto(shift);
+    (b.out, shift as usize)
+}
